@@ -404,9 +404,12 @@ extern int total_queries;
  * to be managed (but dest may be NULL in any case).
  */
 #define GET_COLUMN_STRING(stmt, col, dest, onerr) do { \
+    int value_is_null = (sqlite3_column_type(stmt, col) == SQLITE_NULL); \
     const UChar *string_val = (const UChar *) sqlite3_column_text16(stmt, col); \
     if (string_val == NULL) { \
         dest = NULL; \
+        /* for a non-NULL value a NULL result means that SQLite could not allocate memory for converting it */ \
+        if (!value_is_null) { SET_RESULT(CIF_MEMORY_ERROR); goto onerr; } \
     } else { \
         size_t value_bytes = (size_t) sqlite3_column_bytes16(stmt, col); \
         int32_t value_chars; \
@@ -427,9 +430,12 @@ extern int total_queries;
  * to be managed (but dest may be NULL in any case).
  */
 #define GET_COLUMN_BYTESTRING(stmt, col, dest, onerr) do { \
+    int value_is_null = (sqlite3_column_type(stmt, col) == SQLITE_NULL); \
     const char *string_val = (const char *) sqlite3_column_text(stmt, col); \
     if (string_val == NULL) { \
         dest = NULL; \
+        /* for a non-NULL value a NULL result means that SQLite could not allocate memory for converting it */ \
+        if (!value_is_null) { SET_RESULT(CIF_MEMORY_ERROR); goto onerr; } \
     } else { \
         size_t value_bytes = (size_t) sqlite3_column_bytes(stmt, col); \
         dest = (char *) malloc(value_bytes + 1); \
